@@ -9,6 +9,38 @@ import KamalProxy.Properties.C04
 namespace KamalProxy.C11
 open KamalProxy
 
+/-- pause controller states the code can produce: the release channel exists exactly while
+    paused, and only the stopped state carries a message -/
+def PauseOK (p : Pause) : Prop :=
+  (p.st = .paused → p.hasChan = true) ∧ (p.st ≠ .paused → p.hasChan = false) ∧ (p.st ≠ .stopped → p.msg = [])
+
+theorem pauseOK_init : PauseOK Pause.init := by simp [PauseOK, Pause.init]
+
+theorem pauseOK_pauseCtl (p : Pause) (fa : Int) : PauseOK (pauseCtl p fa) := by
+  unfold PauseOK pauseCtl
+  refine ⟨fun _ => ?_, fun h => absurd rfl h, fun _ => rfl⟩
+  by_cases h : p.st ≠ .paused || !p.hasChan
+  · simp only [h, if_true]
+  · simp only [h, Bool.false_eq_true, if_false]
+    simp only [ne_eq, Bool.or_eq_true, decide_eq_true_eq, Bool.not_eq_eq_eq_not, Bool.not_true, not_or,
+      Decidable.not_not, Bool.not_eq_false] at h
+    exact h.2
+
+theorem pauseOK_setStateCtl {p p' : Pause} {st : PauseSt} {msg : Bytes} (hp : PauseOK p)
+    (hst : st ≠ .paused) (hm : st ≠ .stopped → msg = []) (h : setStateCtl p st msg = some p') : PauseOK p' := by
+  unfold setStateCtl at h
+  split at h
+  · split at h
+    · cases h; exact ⟨fun h => absurd h hst, fun _ => rfl, hm⟩
+    · cases h
+  · rename_i hne
+    cases h
+    refine ⟨fun h => absurd h hst, fun _ => ?_, hm⟩
+    simp only [ne_eq, Bool.and_eq_true, bne_iff_ne, decide_eq_true_eq, not_and] at hne
+    by_cases hps : p.st = .paused
+    · have := hne (by rw [hps]; exact fun e => hst e.symm); exact absurd hps this
+    · exact hp.2.1 hps
+
 /-- restoring the snapshots of services that survive the file one by one replays `ServiceMap.Set` over them -/
 theorem restoreAll_map (good : List (Bytes × Bytes)) (l : List Svc) (hr : ∀ v ∈ l, restoreSvc good (snapOf v) = .ok v) (acc : List Svc) :
     restoreAll good acc (l.map snapOf) = some (l.foldl setSvc acc) := by
@@ -537,5 +569,222 @@ theorem inv_runCore (cmds : List Cmd) : Inv (runCore cmds) := by
     | nil => intro c h; exact h
     | cons x xs ih => intro c h; exact ih _ (inv_step h x)
   exact this _ inv_init
+
+/-! ### pause controllers are well-formed and target names valid in every reachable state -/
+
+/-- the parts of `Restorable` that every reachable state has by construction -/
+def Sound (v : Svc) : Prop :=
+  PauseOK v.pause ∧ v.active.all validTarget = true ∧ ∀ ts, v.rollout = some ts → ts.all validTarget = true
+
+theorem sound_setFlags {v : Svc} (h : Sound v) (a b : Bool) : Sound (setFlags v a b) := h
+
+theorem sound_syncOne (l : List Svc) {v : Svc} (h : Sound v) : Sound (syncOne l v) := by
+  unfold syncOne
+  split
+  · exact h
+  · split <;> exact sound_setFlags h _ _
+
+theorem sound_sync {l : List Svc} (h : ∀ v ∈ l, Sound v) : ∀ v ∈ syncTLS l, Sound v := by
+  rw [syncTLS_eq]
+  intro v hv
+  obtain ⟨w, hw, rfl⟩ := List.mem_map.mp hv
+  exact sound_syncOne l (h w hw)
+
+theorem sound_setSvc {l : List Svc} (h : ∀ v ∈ l, Sound v) {v : Svc} (hv : Sound v) : ∀ w ∈ setSvc l v, Sound w := by
+  unfold setSvc
+  apply sound_sync
+  split
+  · intro w hw
+    obtain ⟨x, hx, rfl⟩ := List.mem_map.mp hw
+    split
+    · exact hv
+    · exact h x hx
+  · intro w hw
+    rcases List.mem_append.mp hw with hw | hw
+    · exact h w hw
+    · simp only [List.mem_singleton] at hw; rw [hw]; exact hv
+
+theorem sound_removeSvc {l : List Svc} (h : ∀ v ∈ l, Sound v) (n : Bytes) : ∀ w ∈ removeSvc l n, Sound w := by
+  unfold removeSvc
+  apply sound_sync
+  intro w hw
+  exact h w (List.mem_filter.mp hw).1
+
+theorem pauseOK_restorePause {p : PauseSt × Bytes × Int} {q : Pause} (h : restorePause p = some q) : PauseOK q := by
+  obtain ⟨st, msg, fa⟩ := p
+  unfold restorePause at h
+  cases st with
+  | running =>
+    simp only [setStateCtl] at h
+    simp at h
+    subst h
+    simp [PauseOK]
+  | paused =>
+    simp only at h
+    cases h
+    exact pauseOK_pauseCtl _ _
+  | stopped =>
+    simp only [setStateCtl] at h
+    simp at h
+    subst h
+    simp [PauseOK]
+
+theorem sound_restoreSvc {good : List (Bytes × Bytes)} {sn : SvcSnap} {v : Svc} (h : restoreSvc good sn = .ok v) : Sound v := by
+  unfold restoreSvc at h
+  dsimp only at h
+  split at h
+  · cases h
+  · rename_i p hp
+    split at h
+    · cases h
+    · rename_i ha
+      split at h
+      · cases h
+      · rename_i hro
+        split at h
+        · cases h
+        · cases h
+          refine ⟨pauseOK_restorePause hp, by simpa using ha, ?_⟩
+          intro ts hts
+          simp only at hts
+          rw [hts] at hro
+          simpa using hro
+
+
+def SoundC (c : Core) : Prop := ∀ v ∈ c.svcs, Sound v
+
+theorem soundC_deployInto {c : Core} (h : SoundC c) {v : Svc} (hv : Sound v) (slot : Slot) (targets : List Bytes) (env : Env) :
+    SoundC (deployInto c v slot targets env).1 := by
+  by_cases ht : targets.all validTarget = true
+  · have hv' : Sound (withLb v slot targets) := by
+      cases slot with
+      | active => exact ⟨hv.1, ht, hv.2.2⟩
+      | rollout => exact ⟨hv.1, hv.2.1, fun ts hts => by simp only [withLb, Option.some.injEq] at hts; rw [← hts]; exact ht⟩
+    have hs := sound_setSvc h hv'
+    unfold deployInto
+    dsimp only
+    repeat' split
+    all_goals first | exact h | exact hs
+  · unfold deployInto
+    simp only [ht, Bool.not_false, if_true]
+    exact h
+
+theorem soundC_updSvc {c : Core} (h : SoundC c) (name : Bytes) (f : Svc → Svc) (hf : ∀ v, Sound v → Sound (f v)) :
+    SoundC (updSvc c name f) := by
+  intro w hw
+  unfold updSvc at hw
+  obtain ⟨x, hx, rfl⟩ := List.mem_map.mp hw
+  split
+  · exact hf x (h x hx)
+  · exact h x hx
+
+theorem sound_deployObj {c : Core} (h : SoundC c) (name : Bytes) (o : SvcOptions) (topts : TargetOptions) (cm : Bool) :
+    Sound (deployObj c name o topts cm) := by
+  unfold deployObj
+  split
+  · rename_i old hold
+    exact h old (List.mem_of_find?_eq_some hold)
+  · exact ⟨pauseOK_init, rfl, fun ts hts => by cases hts⟩
+
+theorem soundC_restore {c : Core} (good : List (Bytes × Bytes)) : SoundC (restoreCore good c.file) := by
+  unfold restoreCore
+  split
+  · intro v hv; cases hv
+  · rename_i sns _
+    have key : ∀ (sns : List SvcSnap) (acc r : List Svc), (∀ v ∈ acc, Sound v) → restoreAll good acc sns = some r → ∀ v ∈ r, Sound v := by
+      intro sns
+      induction sns with
+      | nil => intro acc r ha hr; simp only [restoreAll, Option.some.injEq] at hr; subst hr; exact ha
+      | cons sn rest ih =>
+        intro acc r ha hr
+        simp only [restoreAll] at hr
+        split at hr
+        · cases hr
+        · rename_i v hv
+          exact ih _ r (sound_setSvc ha (sound_restoreSvc hv)) hr
+    cases hr : restoreAll good [] sns with
+    | none => intro v hv; cases hv
+    | some r => exact key sns [] r (fun v hv => by cases hv) hr
+
+theorem soundC_step {c : Core} (h : SoundC c) (cmd : Cmd) : SoundC (stepCore c cmd).1 := by
+  cases cmd with
+  | deploy name targets opts topts env =>
+    simp only [stepCore]
+    split
+    · exact h
+    · exact soundC_deployInto h (sound_deployObj h _ _ _ _) _ _ _
+  | rolloutDeploy name targets env =>
+    simp only [stepCore]
+    split
+    · exact h
+    · rename_i v hv
+      exact soundC_deployInto h (h v (List.mem_of_find?_eq_some hv)) _ _ _
+  | rolloutSet name percent allow =>
+    simp only [stepCore, withSvc]
+    split
+    · exact h
+    · split
+      · exact h
+      · exact soundC_updSvc h name _ (fun v hv => hv)
+  | rolloutStop name =>
+    simp only [stepCore, withSvc]
+    split
+    · exact h
+    · exact soundC_updSvc h name _ (fun v hv => hv)
+  | pause name failAfter =>
+    simp only [stepCore, withSvc]
+    split
+    · exact h
+    · exact soundC_updSvc h name _ (fun v hv => ⟨pauseOK_pauseCtl _ _, hv.2⟩)
+  | stop name msg =>
+    simp only [stepCore, withSvc]
+    split
+    · exact h
+    · rename_i v hv
+      split
+      · exact h
+      · rename_i p hp
+        -- every service named `name` shares the looked-up controller only in the model's first match; the update is
+        -- applied to the services with that name, whose own controllers need the lemma individually
+        intro w hw
+        unfold save updSvc at hw
+        obtain ⟨x, hx, rfl⟩ := List.mem_map.mp hw
+        split
+        · have hxs := h x hx
+          have hvs := h v (List.mem_of_find?_eq_some hv)
+          exact ⟨pauseOK_setStateCtl hvs.1 (by decide) (by intro hne; exact absurd rfl hne) hp, hxs.2⟩
+        · exact h x hx
+  | resume name =>
+    simp only [stepCore, withSvc]
+    split
+    · exact h
+    · rename_i v hv
+      split
+      · exact h
+      · rename_i p hp
+        intro w hw
+        unfold save updSvc at hw
+        obtain ⟨x, hx, rfl⟩ := List.mem_map.mp hw
+        split
+        · have hxs := h x hx
+          have hvs := h v (List.mem_of_find?_eq_some hv)
+          exact ⟨pauseOK_setStateCtl hvs.1 (by decide) (fun _ => rfl) hp, hxs.2⟩
+        · exact h x hx
+  | remove name =>
+    simp only [stepCore, withSvc]
+    split
+    · exact h
+    · exact sound_removeSvc h name
+  | restart good =>
+    simp only [stepCore]
+    exact soundC_restore good
+
+theorem soundC_runCore (cmds : List Cmd) : SoundC (runCore cmds) := by
+  unfold runCore
+  have : ∀ c, SoundC c → SoundC (cmds.foldl (fun c cmd => (stepCore c cmd).1) c) := by
+    induction cmds with
+    | nil => intro c h; exact h
+    | cons x xs ih => intro c h; exact ih _ (soundC_step h x)
+  exact this _ (fun v hv => by cases hv)
 
 end KamalProxy.C11
